@@ -12,6 +12,8 @@ import (
 
 	"github.com/olric-data/olric"
 	"github.com/olric-data/olric/internal/discovery"
+	"github.com/vmihailenco/msgpack/v5"
+	"github.com/redis/go-redis/v9"
 )
 
 // member ids (64-bit hashes of name + birthdate) are renamed to small numbers in order of appearance
@@ -356,6 +358,52 @@ func init() {
 			}
 		}
 		return "ok"
+	})
+	// c.badrouting <m> <variant>: a routing-table push that is well formed on the wire (msgpack map with PartitionCount entries,
+	// the real coordinator's id) but whose CONTENT is not a routing table: a partition id out of range ("oob"), an entry that
+	// is nil ("nilroute"), both lists empty ("empty").  Sent over a raw connection - any client can.  Reply: the reply class
+	// and whether the member still answers.
+	register("c.badrouting", func(a []string) string {
+		m := cl.members[atoi(a[0])]
+		type wireRoute struct {
+			Owners  []discovery.Member
+			Backups []discovery.Member
+		}
+		iv := m.db.VerifInternals()
+		parts := uint64(optInt(cl.opts, "parts", 7))
+		table := map[uint64]*wireRoute{}
+		for p := uint64(0); p < parts; p++ {
+			table[p] = &wireRoute{Owners: iv.Primary.PartitionByID(p).Owners(), Backups: iv.Backup.PartitionByID(p).Owners()}
+		}
+		switch a[1] {
+		case "oob":
+			table[parts+5] = table[parts-1]
+			delete(table, parts-1)
+		case "nilroute":
+			table[parts-1] = nil
+		case "empty":
+			table[parts-1] = &wireRoute{}
+		}
+		payload, err := msgpack.Marshal(table)
+		if err != nil {
+			return "err:" + err.Error()
+		}
+		ctx, cancel := opCtx()
+		defer cancel()
+		rc := redis.NewClient(&redis.Options{Addr: m.addr, MaxRetries: -1, DialTimeout: 2 * time.Second, ReadTimeout: 4 * time.Second})
+		defer rc.Close()
+		res := "R"
+		if err := rc.Do(ctx, "internal.node.updaterouting", payload, strconv.FormatUint(iv.RT.VerifCoordinator().ID, 10)).Err(); err != nil {
+			if _, isReply := err.(redis.Error); isReply {
+				res = "E"
+			} else {
+				res = "noreply"
+			}
+		}
+		if perr := cl.rawc(m).Ping(ctx).Err(); perr != nil {
+			return res + " member-unresponsive:" + errClass(perr)
+		}
+		return res + " alive"
 	})
 	// r.put: c.put that the model does not mirror (streams whose model is the routing table only)
 	register("r.put", func(a []string) string { return handlers["c.put"](a) })
